@@ -317,6 +317,8 @@ def inline_helpers(tree: ast.Module, keep: Set[str], rounds: int = 3) -> bool:
                 return False
             if isinstance(h, ast.AsyncFunctionDef) and not isinstance(caller, ast.AsyncFunctionDef):
                 return False
+            if caller is None and (_return_in_loop(h) or isinstance(h, ast.AsyncFunctionDef)):
+                return False
             return True
 
         def walk_block(stmts: List[ast.stmt], caller, cls) -> None:
@@ -381,7 +383,9 @@ def inline_helpers(tree: ast.Module, keep: Set[str], rounds: int = 3) -> bool:
                         if r is None:
                             continue
                         h, is_method = r
-                        if isinstance(h, ast.AsyncFunctionDef) or not straightline(h) or not eligible(h, h.name, caller, False):
+                        if isinstance(h, ast.AsyncFunctionDef) or not eligible(h, h.name, caller, False):
+                            continue
+                        if any(isinstance(y, (ast.Await, ast.Yield, ast.YieldFrom)) for x_ in h.body for y in ast.walk(x_)):
                             continue
                         uid[0] += 1
                         holder = ast.Assign(targets=[ast.Name(id="_h%d_value" % uid[0], ctx=ast.Store())], value=c)
@@ -417,6 +421,7 @@ def inline_helpers(tree: ast.Module, keep: Set[str], rounds: int = 3) -> bool:
                     hoist_block(hd.body, caller, cls)
                 i += 1
 
+        walk_block(tree.body, None, None)  # module-level statements (e.g. NAME = _select_impl())
         for st in tree.body:
             if isinstance(st, FuncNode):
                 walk_block(st.body, st, None)
